@@ -390,10 +390,17 @@ func (m *machine) step(op ops.Op, situation string) (string, string) {
 	base := fmt.Sprintf("C03/%s %s", m.s.kind, situation)
 	m.s.observe(op.P, op.P2)
 	var res ops.Res
+	if op.Fault > 0 && m.s.store != nil {
+		// "after every history of operations, successful or FAILED": the store fails one call in the middle of this step
+		m.s.store.FailAt, m.s.store.FailLen = m.s.store.Calls()+op.Fault, 1
+	}
 	if strings.HasPrefix(op.K, "h") {
 		res = m.handleStep(op)
 	} else {
 		res = ops.ApplyFS(m.s.fs, op)
+	}
+	if m.s.store != nil {
+		m.s.store.FailAt = 0
 	}
 	if res.Hung {
 		return base + ":I5-hang", fmt.Sprintf("%v did not return", op)
@@ -469,6 +476,22 @@ func run(t *testing.T, kind string) {
 						op = ops.Op{K: "stat", P: "."}
 					}
 					rec.Class("targeted-at-open-handle")
+				}
+				if m.s.store != nil && rapid.IntRange(0, 7).Draw(rt, "deepcreate") == 0 {
+					// several missing levels created by one call, usually interrupted by the store somewhere in the middle
+					op = ops.Op{K: "mkdirall", P: gen.Random(rt, m.s.alphabet(), 4, false, "deep"), Perm: 0o755}
+					rec.Class("deep-mkdirall")
+				}
+				if m.s.store != nil {
+					// operations that write several keys get a fault half of the time, and later in their sequence of calls
+					odds, last := 3, 8
+					if op.K == "mkdirall" || op.K == "rename" || op.K == "removeall" {
+						odds, last = 1, 14
+					}
+					if rapid.IntRange(0, odds).Draw(rt, "withfault") == 0 {
+						op.Fault = rapid.IntRange(1, last).Draw(rt, "fault")
+						rec.Class("store-fault-in-step")
+					}
 				}
 				s := sit.Of(op, tr)
 				if k := knownSig(m.s, op); k != "" {
